@@ -70,6 +70,12 @@ LEAVES = [
     ("ReplyNet", "src_l_respond_now", LIS, "AsyncListener.handle_query_or_defer", ("call", "_respond_query", 0), [], "src", {}),
     ("ReplyNet", "src_l_respond_later", LIS, "AsyncListener.handle_query_or_defer", ("call", "call_at", 0), [], "src", {}),
     ("ReplyNet", "src_l_assembled", LIS, "AsyncListener._respond_query", ("call", "handle_assembled_query", 0), [], "src", {}),
+    # ---- _listener.py: `self.data` / `self.last_time` (what the duplicate guard compares with) are assigned once each, behind the guard:
+    #      a dropped repeat does not restart the second (wave-5 seed C11-w5-seed2)
+    ("ReplyNet", "src_l_last_time", LIS, "AsyncListener._process_datagram_at_time", ("assign", "self.last_time", 0), [], "src", {}),
+    ("ReplyNet", "src_l_last_time_again", LIS, "AsyncListener._process_datagram_at_time", ("assign", "self.last_time", 1), [], "src", {}),
+    ("ReplyNet", "src_l_data", LIS, "AsyncListener._process_datagram_at_time", ("assign", "self.data", 0), [], "src", {}),
+    ("ReplyNet", "src_l_data_again", LIS, "AsyncListener._process_datagram_at_time", ("assign", "self.data", 1), [], "src", {}),
     # ---- _listener.py::_respond_query: the deferred packets first, the packet just received last (the reply takes id and
     #      questions from `packets[0]`); _cache.py::async_get_unique: "seen" is looked up under the lower-cased name
     ("ReplyNet", "src_l_packets", LIS, "AsyncListener._respond_query", ("assign", "packets", 0), [], "src", {}),
